@@ -30,7 +30,13 @@ fn gen_finish_c01(rng: &mut Rng) -> Finish {
             Finish::Writer { status: 200, body_len, parts, early_drop_sleep_us: if rng.chance(1, 3) { rng.range(0, 1500) as u64 } else { 0 }, vectored: rng.chance(1, 3) }
         }
         10 => Finish::Drop,
-        _ => Finish::WriterNothing,
+        _ => {
+            if rng.chance(1, 3) {
+                Finish::WriterPanic
+            } else {
+                Finish::WriterNothing
+            }
+        }
     }
 }
 
@@ -386,7 +392,7 @@ fn run_one(ctx: &Ctx, env: &Env, c06: bool, case_seed: u64, mode: &str) {
         Verdict::Violated(findings) => {
             rep.eval(sig.as_deref());
             let first = &findings[0];
-            let class = if case.plans.iter().any(|p| p.finish == Finish::WriterNothing) { "pipeline+empty-writer" } else { "pipeline" };
+            let class = if case.plans.iter().any(|p| matches!(p.finish, Finish::WriterNothing | Finish::WriterPanic)) { "pipeline+empty-writer" } else { "pipeline" };
             rep.violation(Violation {
                 signature: format!("{}/{}/{}", prop, class, first.aspect),
                 what: first.what.clone(),
